@@ -12,7 +12,8 @@ Record blk := mkBlk { b_due : bool; b_begin : phase_obs; b_tx : list phase_obs; 
 (* inputs of one modelled site, read from the real state right before the EndBlock that consumed them *)
 Inductive site :=
 | SSpend (now : Z) (pools : list spool)                         (* spending EndBlocker *)
-| SQuorum (due : bool) (q : dec) (votes voters : Z)             (* processProposal / processPoll of a due item *)
+| SQuorum (due : bool) (q : dec) (votes voters : Z)             (* processProposal of a due proposal *)
+| SPollQuorum (due : bool) (q : dec) (votes voters : Z)         (* processPoll of a due poll *)
 | SWithdraw (due : bool) (modbal poolbal amt : Z) (nben : nat)  (* enactment of a passed Withdraw proposal *)
 | SClaim (due : bool) (poolbal : Z) (rate w : dec) (cstart last now cend expiry : Z). (* Distribution, 1 beneficiary *)
 
@@ -25,11 +26,12 @@ Definition predicted (s : site) : option string :=   (* None = EndBlock complete
   let cls {A} (o : outcome A) := match o with Panic c => Some c | _ => None end in
   match s with
   | SSpend now pools => cls (spend_endblock spend_endblock_guarded now pools)   (* flag regenerated from the tree *)
-  | SQuorum due q votes voters => if due then cls (process_quorum q votes voters) else None
+  | SQuorum due q votes voters => if due then cls (process_quorum_on gov_proposal_quorum_error_panics q votes voters) else None
+  | SPollQuorum due q votes voters => if due then cls (process_quorum_on gov_poll_quorum_error_panics q votes voters) else None
   | SWithdraw due modbal poolbal amt nben =>
-      if due then cls (apply_proposal (withdraw_handler nben amt) (modbal, poolbal)) else None
+      if due then cls (apply_proposal (withdraw_handler_on withdraw_sub_unchecked nben amt) (modbal, poolbal)) else None
   | SClaim due poolbal rate w cstart last now cend expiry =>
-      if due then cls (apply_proposal (fun pb => claim pb rate w cstart last now cend expiry) poolbal) else None
+      if due then cls (apply_proposal (fun pb => claim_on claim_sub_unchecked pb rate w cstart last now cend expiry) poolbal) else None
   end.
 Definition obs_cls (p : phase_obs) : option string := match p with PhOk => None | PhPanic _ c => Some c end.
 Definition ostr_eqb (a b : option string) : bool :=
